@@ -545,7 +545,10 @@ class Weaver:
                                 tags |= set(tm.group(1).split(','))
             info['props'] = sorted(set(props) | tags)
             if spec['pin'] and spec['pin'] != info['body_sha']:
-                self.lost.append(f"{rel}: fn {qual}: pinned body changed ({info['body_sha']} != {spec['pin']})")
+                # a trusted function whose reviewed body changed: its contract is a stale assumption. Soft: only the
+                # properties that rely on this function become UNDECIDED (unless something fails for them anyway)
+                self.soft_lost.append({'desc': f"{rel}: fn {qual}: pinned body changed ({info['body_sha']} != {spec['pin']}); its trusted contract was reviewed against another body",
+                                       'props': info['props']})
             # return naming
             if spec['ret']:
                 m = re.search(r'->\s*([^{]+?)\s*(where\b[^{]*)?$', sig)
